@@ -62,12 +62,13 @@ theorem merge_stale (H : Bytes → Bytes) (p c : Trie) (changes : List (Change R
   simp [mergeMPTChangesOrd, mergeChanges, hne, hmoved]
 
 /-- **An up-to-date child is accepted**: the parent takes over the child's root and content, and its store and
-    collector are the parent's after the events `mergeEvents changes deletes`. -/
+    collector are the parent's after the events `mergeEvents (orderChanges changes) deletes` (the child's changes in
+    the replay order chosen by `orderChanges`, then its deletes). -/
 theorem merge_fresh (H : Bytes → Bytes) (p c : Trie) (changes : List (Change Ref))
     (hfresh : p.root = c.cc.startRoot) (hne : p.root ≠ c.root) :
     ∃ p', mergeMPTChangesOrd H p c changes = .ok p' ∧ p'.root = c.root ∧ p'.tree = c.tree ∧ p'.version = p.version ∧
-      p'.cc = (p.applyEvents H (mergeEvents changes c.cc.getDeletes)).cc ∧
-      p'.db = (p.applyEvents H (mergeEvents changes c.cc.getDeletes)).db := by
+      p'.cc = (p.applyEvents H (mergeEvents (orderChanges H changes) c.cc.getDeletes)).cc ∧
+      p'.db = (p.applyEvents H (mergeEvents (orderChanges H changes) c.cc.getDeletes)).db := by
   have hfold : ∀ (cs : List (Change Ref)) (q : Trie),
       cs.foldl (fun t c => t.insertNode H c.old c.new) q = q.applyEvents H (cs.map (fun c => Event.put c.old c.new)) := by
     intro cs
@@ -98,7 +99,7 @@ theorem merge_fresh (H : Bytes → Bytes) (p c : Trie) (changes : List (Change R
         | some o => simp only [Trie.applyEvent, Trie.insertNode]; split <;> rfl
   have hne2 : ¬ p.root = c.root := hne
   have hst : ¬ p.root ≠ c.cc.startRoot := by simp [hfresh]
-  refine ⟨{ (c.cc.getDeletes.foldl (Trie.deleteNode H) (changes.foldl (fun t c => t.insertNode H c.old c.new) p)) with
+  refine ⟨{ (c.cc.getDeletes.foldl (Trie.deleteNode H) ((orderChanges H changes).foldl (fun t c => t.insertNode H c.old c.new) p)) with
             root := c.root, tree := c.tree }, ?_, rfl, rfl, ?_, ?_, ?_⟩
   · simp only [mergeMPTChangesOrd, mergeChanges, if_neg hne2, if_neg hst]
   · simp only [hfold, hfold2, hver]
